@@ -31,7 +31,9 @@ ASSUMPTIONS = [
 def _bases():
     out = []
     d = {"a": 1}
-    objs = [None, 7, "s", [1, 2, 3, 4], (1, 2), {"k": [1, {"j": 2}]}, [d, d], {1, 2}, b"bytes", list(range(300)), [[i] for i in range(260)]]
+    big = b"x" * 70000      # >= 64 KiB: the pickler writes it outside any frame and leaves a short unframed tail
+    objs = [None, 7, "s", [1, 2, 3, 4], (1, 2), {"k": [1, {"j": 2}]}, [d, d], {1, 2}, b"bytes", list(range(300)), [[i] for i in range(260)],
+            [1, big], {"k": big}, [big, 2, "t" * 70000]]
     for o in objs:
         for proto in range(6):
             out.append(("obj%r@%d" % (str(o)[:12], proto), pickle.dumps(o, proto)))
@@ -51,6 +53,7 @@ def _bases():
         ("asm-proto2-call", b"\x80\x02czqv_m\nf\nq\x00K\x01\x85q\x01Rq\x02."),
         ("asm-framed-call", b"\x80\x04\x95\x1b\x00\x00\x00\x00\x00\x00\x00\x8c\x05zqv_m\x94\x8c\x01f\x94\x93\x94K\x01\x85\x94R\x94."),
         ("asm-setstate-shared", b"czqv_m\nC\n)\x81q\x00}bh\x00\x86."),
+        ("asm-short-frame", b"\x80\x04\x95\x02\x00\x00\x00\x00\x00\x00\x00K\x07\x94."),          # a frame that ends before MEMOIZE and STOP
         ("asm-values-left-below", b"K\x01K\x02."),
     ]
     return out + asm
@@ -229,7 +232,7 @@ def make_lemma(mi):
 
     def lem(b: int, a: int) -> bool:
         """
-        pre: 0 <= b < 128 and 0 <= a < 8
+        pre: 0 <= b < 160 and 0 <= a < 8
         post: _
         """
         if b >= len(BASES):
@@ -278,7 +281,7 @@ def lemmas(tier):
     L = []
     for mi, mode in enumerate(MODES):
         fn = make_lemma(mi)
-        L.append(Lemma(fn.__name__, fn, timeout=400 if q else 2000, replay=make_replay(mi), dry=[{"b": 18, "a": 0}, {"b": len(BASES) - 8, "a": 0}],
+        L.append(Lemma(fn.__name__, fn, timeout=400 if q else 2000, replay=make_replay(mi), dry=[{"b": 18, "a": 0}, {"b": len(BASES) - 9, "a": 0}, {"b": 11 * 6 + 4, "a": 0}],
                        doc={"F": ["%d base pickles (11 objects x protocols 0-5 incl. 300-entry memos; 16 assembler programs: headerless, own globals/calls/BUILD, sparse memo keys 1/2/321987, memo-length collisions, framed, values left below)" % len(BASES),
                                   "mode " + mode, "argument from %d samples (text classes, list, dict, int, bytes)" % len(ARGS)],
                             "bound": "listed bases and arguments"}))
